@@ -5,6 +5,7 @@ import (
 	stderrors "errors"
 	"io"
 	"os"
+	"reflect"
 
 	"github.com/cockroachdb/errors"
 	"github.com/cockroachdb/errors/errbase"
@@ -68,12 +69,23 @@ func markEqModel(c, r error) bool {
 	return res
 }
 
+// identical is == on errors, false (instead of a panic) for uncomparable dynamic types.
+func identical(a, b error) bool {
+	if a == nil || b == nil {
+		return a == nil && b == nil
+	}
+	if !reflect.TypeOf(a).Comparable() || !reflect.TypeOf(b).Comparable() {
+		return false
+	}
+	return a == b
+}
+
 // isModel is the documented rule for errors without Is methods and without
 // explicit marks: some layer of e is identical to r or mark-equivalent to r.
 func isModel(e, r error) bool {
 	res := false
 	for c := e; c != nil; c = errors.UnwrapOnce(c) {
-		res = sym.Or(res, sym.Or(c == r, markEqModel(c, r)))
+		res = sym.Or(res, sym.Or(identical(c, r), markEqModel(c, r)))
 		for _, me := range errbase.UnwrapMulti(c) {
 			res = sym.Or(res, isModel(me, r))
 		}
